@@ -95,6 +95,17 @@ PROPS = {
                 "store entry points from_hz_values / to_hz_ranges with the enclosure predicate checked on the implementation. distinct_nontrivial = distinct op lines.",
         "explanation": "theorems on bit patterns with the constants extracted from src/qty.rs: strict monotonicity, in-domain, rejection, bit-exact inverse, narrow-type monotonicity, exact cell content of F-/T-MOCs built from values",
     },
+    "C17": {
+        "trusted_base": COMMON_TB + ["space morphology: independent brute-force oracle in the harness (flat cell set + cdshealpix::nested::neighbours) — implementation-vs-oracle, no Lean model"],
+        "assumptions": COMMON_ASSUME + [
+            "HEALPix neighbour geometry (cdshealpix) is not modelled: expanded/contracted/borders/split/fill_holes of SPACE MOCs are only tested against the oracle at depths 0-2 (labelled test, counted under space-op:*)",
+            "tf_contracted = complement∘expanded∘complement is checked by evaluating the definition with the proved operators on every generated case (op tf_con_def), not proved in general"],
+        "rule": "Time and Frequency x u16/u32/u64: EVERY MOC of the whole-domain universe at depth 2 (8 cells, 256 MOCs, both domain bounds reached) + samples at depth 3 and boundary-biased "
+                "random MOCs at all depths: expanded, contracted, and the definition not(expanded(not M)) evaluated by the model; space (Hpx u64, depths 0-2: sparse, dense, blobs around "
+                "base-cell corners and poles, empty, full): expanded, contracted, external/internal border, split with both connectivities (exact partition into connected components), "
+                "fill_holes (superset adding whole components) against the oracle. distinct_nontrivial = distinct op lines with a non-empty MOC.",
+        "explanation": "theorems: T/F expanded semantics + canonicity, T/F contracted per range, counterexample for the original formula; space part is oracle testing",
+    },
 }
 
 
